@@ -256,43 +256,60 @@ def check_spectrum(out, c, tmp):
     else:
         b = NativeBinner()
     size = {'heavy': OutputSize.heavy, 'light': OutputSize.light, 'lighter': OutputSize.lighter}[c['size']]
-    with np.errstate(all='ignore'):
-        d = cut(out, 'generate_spectrum_output@' + kind, b.generate_spectrum_output, res, size)
-    tag = '%s,%s' % (kind, c['size'])
-    out.applies('self-describing')
-    if not np.array_equal(np.asarray(d['native_wngrid']), native) or not np.array_equal(np.asarray(d['native_spectrum']), spec):
-        out.fail('self-describing@native,' + kind, 'native grid / spectrum are not the model result')
-    if not close(d['native_wlgrid'], 10000.0 / native, rtol=1e-15):
-        out.fail('self-describing@native_wlgrid,' + kind, 'native wavelength grid is not 10000/wavenumber')
     want_tau_native = c['size'] == 'heavy'
     want_tau_binned = c['size'] in ('heavy', 'light') and kind != 'native'
-    out.applies('optical-depth-presence')
-    if ('native_tau' in d) != want_tau_native:
-        out.fail('optical-depth-presence@native,%s' % c['size'], 'native_tau present: %s' % ('native_tau' in d))
-    if kind != 'native' and ('binned_tau' in d) != want_tau_binned:
-        out.fail('optical-depth-presence@binned,%s' % c['size'], 'binned_tau present: %s' % ('binned_tau' in d))
-    if kind == 'native':
-        return False
-    out.applies('binned-grids')
-    if not np.array_equal(np.asarray(d['binned_wngrid']), centres) or not close(d['binned_wlgrid'], 10000.0 / centres, rtol=1e-15):
-        out.fail('binned-grids@' + kind, 'binned grid is not the target grid / wavelength grid not 10000/wavenumber')
-    if not close(d['binned_wnwidth'], bw, rtol=1e-12):
-        out.fail('binned-grids@wnwidth,' + kind, 'binned wavenumber widths are not those of the binner')
-    out.applies('binned-wlwidth')
-    if not close(d['binned_wlwidth'], 10000.0 * np.asarray(bw) / centres ** 2, rtol=1e-12):
-        out.fail('binned-wlwidth@' + kind, 'binned wavelength width %s is not the wavenumber width converted at the bin centre %s'
-                 % (np.asarray(d['binned_wlwidth'])[:2], (10000.0 * np.asarray(bw) / centres ** 2)[:2]))
-    out.applies('binned-spectrum')
-    direct = np.asarray(b.bindown(native, spec)[1], dtype=float)
-    if not close(d['binned_spectrum'], direct, rtol=1e-12, atol=1e-300):
-        out.fail('binned-spectrum@binner,' + kind, 'stored binned spectrum is not the binner applied to the stored native spectrum')
-    if kind.startswith('flux'):
-        e, nw = midpoint_widths(native)
-        for i in range(nb):
-            v, _, tot, _, _ = overlap_mean(native - nw / 2, native + nw / 2, spec, centres[i] - bw[i] / 2, centres[i] + bw[i] / 2)
-            if tot > 0 and not close(np.asarray(d['binned_spectrum'])[i], v, rtol=1e-9, atol=1e-300):
-                out.fail('binned-spectrum@reference,' + kind, 'bin %d: %r vs overlap mean %r' % (i, np.asarray(d['binned_spectrum'])[i], v))
-                break
+
+    def judge(res_, sfx):
+        native = np.asarray(res_[0], dtype=float)
+        spec = np.asarray(res_[1], dtype=float)
+        with np.errstate(all='ignore'):
+            d = cut(out, 'generate_spectrum_output@' + kind + sfx, b.generate_spectrum_output, res_, size)
+        out.applies('self-describing')
+        if not np.array_equal(np.asarray(d['native_wngrid']), native) or not np.array_equal(np.asarray(d['native_spectrum']), spec):
+            out.fail('self-describing@native,' + kind + sfx, 'native grid / spectrum are not the model result')
+        if not close(d['native_wlgrid'], 10000.0 / native, rtol=1e-15):
+            out.fail('self-describing@native_wlgrid,' + kind + sfx, 'native wavelength grid is not 10000/wavenumber')
+        want_tau_native = c['size'] == 'heavy'
+        want_tau_binned = c['size'] in ('heavy', 'light') and kind != 'native'
+        out.applies('optical-depth-presence')
+        if ('native_tau' in d) != want_tau_native:
+            out.fail('optical-depth-presence@native,%s' % c['size'] + sfx, 'native_tau present: %s' % ('native_tau' in d))
+        if kind != 'native' and ('binned_tau' in d) != want_tau_binned:
+            out.fail('optical-depth-presence@binned,%s' % c['size'] + sfx, 'binned_tau present: %s' % ('binned_tau' in d))
+        if kind == 'native':
+            return
+        out.applies('binned-grids')
+        if not np.array_equal(np.asarray(d['binned_wngrid']), centres) or not close(d['binned_wlgrid'], 10000.0 / centres, rtol=1e-15):
+            out.fail('binned-grids@' + kind + sfx, 'binned grid is not the target grid / wavelength grid not 10000/wavenumber')
+        if not close(d['binned_wnwidth'], bw, rtol=1e-12):
+            out.fail('binned-grids@wnwidth,' + kind + sfx, 'binned wavenumber widths are not those of the binner')
+        out.applies('binned-wlwidth')
+        if not close(d['binned_wlwidth'], 10000.0 * np.asarray(bw) / centres ** 2, rtol=1e-12):
+            out.fail('binned-wlwidth@' + kind + sfx, 'binned wavelength width %s is not the wavenumber width converted at the bin centre %s'
+                     % (np.asarray(d['binned_wlwidth'])[:2], (10000.0 * np.asarray(bw) / centres ** 2)[:2]))
+        out.applies('binned-spectrum')
+        with np.errstate(all='ignore'):
+            direct = np.asarray(b.bindown(native, spec)[1], dtype=float)
+        stored = np.asarray(d['binned_spectrum'], dtype=float)
+        both_nan = np.isnan(direct) & np.isnan(stored) if stored.shape == direct.shape else False      # a bin holding no native point
+        if stored.shape != direct.shape or not close(np.where(both_nan, 0.0, stored), np.where(both_nan, 0.0, direct), rtol=1e-12, atol=1e-300):
+            out.fail('binned-spectrum@binner,' + kind + sfx, 'stored binned spectrum is not the binner applied to the stored native spectrum')
+        if kind.startswith('flux'):
+            e, nw = midpoint_widths(native)
+            for i in range(nb):
+                v, _, tot, _, _ = overlap_mean(native - nw / 2, native + nw / 2, spec, centres[i] - bw[i] / 2, centres[i] + bw[i] / 2)
+                if tot > 0 and not close(np.asarray(d['binned_spectrum'])[i], v, rtol=1e-9, atol=1e-300):
+                    out.fail('binned-spectrum@reference,' + kind + sfx, 'bin %d: %r vs overlap mean %r' % (i, np.asarray(d['binned_spectrum'])[i], v))
+                    break
+
+    judge(res, '')
+    # the same binner describes a second result on another native grid of the same length (one binner serves
+    # every spectrum written during a run): the stored output must describe THAT result
+    out.applies('self-describing-reuse')
+    k = 1.0 + 0.013 * (1 + c['nb'])
+    res2 = (native * k + 0.37 * (native[-1] - native[0]) / len(native), spec[::-1].copy(),
+            np.asarray(res[2])[:, ::-1].copy(), res[3])
+    judge(res2, ',reuse')
     return bool(want_tau_binned)
 
 
